@@ -102,3 +102,49 @@ func (db *SpecDB) splitConj2(x Expr, depth int, underQ bool) []Expr {
 	}
 	return []Expr{x}
 }
+
+// mentionsAny reports whether x mentions (free) one of the identifiers in names.
+func mentionsAny(x Expr, names map[string]bool) bool {
+	switch n := x.(type) {
+	case *EIdent:
+		return names[n.Name]
+	case *EUnary:
+		return mentionsAny(n.X, names)
+	case *EBinary:
+		return mentionsAny(n.X, names) || mentionsAny(n.Y, names)
+	case *ESel:
+		return mentionsAny(n.X, names)
+	case *EIndex:
+		return mentionsAny(n.X, names) || mentionsAny(n.I, names)
+	case *EUpdate:
+		return mentionsAny(n.X, names) || mentionsAny(n.I, names) || mentionsAny(n.V, names)
+	case *ECall:
+		for _, a := range n.Args {
+			if mentionsAny(a, names) {
+				return true
+			}
+		}
+		if _, isID := n.Fun.(*EIdent); !isID {
+			return mentionsAny(n.Fun, names)
+		}
+		return false
+	case *EQuant:
+		inner := map[string]bool{}
+		for k, v := range names {
+			inner[k] = v
+		}
+		for _, qv := range n.Vars {
+			delete(inner, qv.Name)
+		}
+		return mentionsAny(n.Body, inner)
+	case *EOld:
+		return mentionsAny(n.X, names)
+	case *EIs:
+		return mentionsAny(n.X, names)
+	case *ECast:
+		return mentionsAny(n.X, names)
+	case *EIte:
+		return mentionsAny(n.C, names) || mentionsAny(n.A, names) || mentionsAny(n.B, names)
+	}
+	return false
+}
